@@ -190,6 +190,8 @@ class SeekableDest:
         self._inside += 1
         try:
             w.sim.spoint('dst.write')
+            w.fs._lat('write', None, not getattr(self, '_wrote', False))
+            self._wrote = True
             f = w.faults.hit('dst', t=self.tidx)
             if f is not None:
                 exc = make_exc(f['exc'], f['id'])
@@ -234,6 +236,8 @@ class NonSeekableDest:
         self._inside += 1
         try:
             w.sim.spoint('dst.write')
+            w.fs._lat('write', None, not getattr(self, '_wrote', False))
+            self._wrote = True
             f = w.faults.hit('dst', t=self.tidx)
             if f is not None:
                 exc = make_exc(f['exc'], f['id'])
